@@ -129,7 +129,7 @@ Fixpoint upd {A} (i : nat) (x : A) (l : list A) : list A :=
 Fixpoint insert (k : nat) (m : msg) (b : list (nat * msg)) : list (nat * msg) :=
   match b with
   | [] => [(k, m)]
-  | (k', m') :: t => if k <=? k' then (k, m) :: b else (k', m') :: insert k m t
+  | (k', m') :: t => if k <? k' then (k, m) :: b else (k', m') :: insert k m t
   end.
 
 (* _get_msg / _has_msg (without the `killed` shortcut, which the callers add) *)
